@@ -827,6 +827,142 @@ theorem DiagFacts.issuedBy_eq (hD : DiagFacts p prog tbl E) (hn : (p.allUnits.ma
       simp only
       symm; simp; omega
 
+/-! ### the checker's view of "at `i`'s turn" -/
+
+theorem DiagFacts.memBefore_iff (hD : DiagFacts p prog tbl E) (hn : (p.allUnits.map (·.name)).Nodup)
+    (stalled : Bool) {t i : Nat} (ht : t < tbl.length) (h0 : E t ≤ i) :
+    memBefore (ctx p prog tbl stalled) t i = true ↔
+      memWitLt prog p.allUnits (prevRow tbl t) (tbl.getD t ([] : List (N × List HI))) i := by
+  constructor
+  · intro h
+    unfold memBefore at h
+    rw [List.any_eq_true] at h
+    obtain ⟨u, hu, h⟩ := h
+    rw [List.any_eq_true] at h
+    obtain ⟨y, hy, h⟩ := h
+    simp only [Bool.and_eq_true, Bool.or_eq_true, decide_eq_true_eq] at h
+    obtain ⟨⟨⟨_, hent⟩, hmem⟩, hlast⟩ := h
+    obtain ⟨hin, hout⟩ := (entersAt_iff _ _ _ _).1 hent
+    have hlt : y.idx < i := by
+      rcases hlast with h | h
+      · by_cases hge : E t ≤ y.idx
+        · have := hD.firstCycle_eq hn stalled ht hge (hD.hosted_lt ht hin)
+          rw [this] at h
+          simp at h
+        · omega
+      · exact h
+    exact ⟨u, hu, y.idx, List.mem_filter.2 ⟨hin, by simpa using hlt⟩, hout, hmem⟩
+  · rintro ⟨m, hm, k, hk, hk1, hk2⟩
+    obtain ⟨hk0, hklt⟩ := List.mem_filter.1 hk
+    have hklt : k < i := by simpa using hklt
+    obtain ⟨y, hy, rfl⟩ := List.mem_map.1 hk0
+    unfold memBefore
+    refine List.any_eq_true.2 ⟨m, hm, List.any_eq_true.2 ⟨y, hy, ?_⟩⟩
+    simp only [Bool.and_eq_true, Bool.or_eq_true, decide_eq_true_eq]
+    refine ⟨⟨⟨?_, (entersAt_iff _ _ _ _).2 ⟨hk0, hk1⟩⟩, hk2⟩, Or.inr hklt⟩
+    simp only [bne_iff_ne, ne_eq]
+    omega
+
+theorem DiagFacts.occAtTurn_eq (hD : DiagFacts p prog tbl E) (stalled : Bool) {t i : Nat} (ht : t < tbl.length)
+    (h0 : E t ≤ i) (u : UnitM N) :
+    occAtTurn (ctx p prog tbl stalled) t i u = cntLt (tbl.getD t ([] : List (N × List HI))) u.name i := by
+  unfold occAtTurn cntLt unitIdx
+  rw [List.filter_map, List.length_map]
+  congr 1
+  apply List.filter_congr
+  intro y hy
+  simp only [Function.comp]
+  by_cases hent : (ctx p prog tbl stalled).entersAt t u.name y.idx = true
+  · simp [hent]
+  · have hin : y.idx ∈ unitIdx (tbl.getD t ([] : List (N × List HI))) u.name := List.mem_map.2 ⟨y, hy, rfl⟩
+    have hold : y.idx ∈ unitIdx (prevRow tbl t) u.name := by
+      by_cases hold : y.idx ∈ unitIdx (prevRow tbl t) u.name
+      · exact hold
+      · exact absurd ((entersAt_iff _ _ _ _).2 ⟨hin, hold⟩) hent
+    have := hD.old_lt ht hold
+    have hlt : y.idx < i := by omega
+    simp [hlt]
+
+omit [LT N] [DecidableRel (α := N) (· < ·)] in
+theorem cntLt_le_length (u : Util N) (n : N) (i : Nat) : cntLt u n i ≤ (u.get n).length := by
+  unfold cntLt unitIdx
+  have := (List.filter_sublist (l := (u.get n).map (·.idx)) (p := fun k => decide (k < i))).length_le
+  simpa using this
+
+/-- for a unit that supports the capability, the checker's `usableAtTurn` is `usableP` -/
+theorem DiagFacts.usableAtTurn_iff (hD : DiagFacts p prog tbl E) (hn : (p.allUnits.map (·.name)).Nodup)
+    (stalled : Bool) {t i : Nat} (ht : t < tbl.length) (h0 : E t ≤ i) {u : UnitM N} (hu : u ∈ p.allUnits)
+    (hsup : capIn prog i u.caps = true) :
+    usableAtTurn (ctx p prog tbl stalled) t i u = true ↔
+      usableP prog p.allUnits (prevRow tbl t) (tbl.getD t ([] : List (N × List HI))) i u := by
+  have hw := (hD.2 t ht).newBase.width u hu
+  have hc := cntLt_le_length (tbl.getD t ([] : List (N × List HI))) u.name i
+  have hmb := hD.memBefore_iff hn stalled ht h0
+  unfold usableAtTurn usableP
+  rw [hD.occAtTurn_eq stalled ht h0]
+  simp only [Bool.and_eq_true, decide_eq_true_eq, Bool.not_eq_true', Bool.and_eq_false_iff]
+  constructor
+  · rintro ⟨h1, h2⟩
+    refine ⟨hsup, ?_, by omega⟩
+    rintro ⟨ha, hb⟩
+    rcases h2 with h2 | h2
+    · exact absurd ha (by rw [show needsMem (ctx p prog tbl stalled).prog i u = capIn prog i u.acl from rfl] at h2; simp [h2])
+    · rw [hmb.2 hb] at h2; cases h2
+  · rintro ⟨_, h2, h3⟩
+    refine ⟨by omega, ?_⟩
+    by_cases ha : capIn prog i u.acl = true
+    · right
+      cases hb : memBefore (ctx p prog tbl stalled) t i
+      · rfl
+      · exact absurd ⟨ha, hmb.1 hb⟩ h2
+    · left
+      rw [Bool.not_eq_true] at ha
+      exact ha
+
+/-- the checker's clause for the instruction held back after cycle `t` -/
+theorem DiagFacts.blocked_clause (hD : DiagFacts p prog tbl E) (stalled : Bool) {t : Nat} (ht : t < tbl.length)
+    {q : UnitM N}
+    (hq : ¬ usableP prog p.allUnits (prevRow tbl t) (tbl.getD t ([] : List (N × List HI))) (E (t + 1)) q) :
+    (!supports (ctx p prog tbl stalled).prog (E (t + 1)) q || (ctx p prog tbl stalled).full t q ||
+      (needsMem (ctx p prog tbl stalled).prog (E (t + 1)) q &&
+        (ctx p prog tbl stalled).memTakenByOther t (E (t + 1)))) = true := by
+  have hcnt : cntLt (tbl.getD t ([] : List (N × List HI))) q.name (E (t + 1)) =
+      ((tbl.getD t ([] : List (N × List HI))).get q.name).length := by
+    unfold cntLt
+    rw [filter_lt_eq_self (fun k hk => hD.hosted_lt ht hk)]
+    simp [unitIdx]
+  by_cases h1 : capIn prog (E (t + 1)) q.caps = true
+  · by_cases h3 : cntLt (tbl.getD t ([] : List (N × List HI))) q.name (E (t + 1)) = q.width
+    · have : (ctx p prog tbl stalled).full t q = true := by
+        unfold Ctx.full
+        apply decide_eq_true
+        rw [hcnt] at h3
+        show q.width ≤ ((tbl.getD t ([] : List (N × List HI))).get q.name).length
+        omega
+      simp [this]
+    · have h2 : capIn prog (E (t + 1)) q.acl = true ∧
+          memWitLt prog p.allUnits (prevRow tbl t) (tbl.getD t ([] : List (N × List HI))) (E (t + 1)) := by
+        by_cases h2 : capIn prog (E (t + 1)) q.acl = true ∧
+          memWitLt prog p.allUnits (prevRow tbl t) (tbl.getD t ([] : List (N × List HI))) (E (t + 1))
+        · exact h2
+        · exact absurd ⟨h1, h2, h3⟩ hq
+      obtain ⟨ha, m, hm, k, hk, hk1, hk2⟩ := h2
+      obtain ⟨hk0, hklt⟩ := List.mem_filter.1 hk
+      have hklt : k < E (t + 1) := by simpa using hklt
+      obtain ⟨y, hy, rfl⟩ := List.mem_map.1 hk0
+      have hmt : (ctx p prog tbl stalled).memTakenByOther t (E (t + 1)) = true := by
+        unfold Ctx.memTakenByOther
+        refine List.any_eq_true.2 ⟨m, hm, List.any_eq_true.2 ⟨y, hy, ?_⟩⟩
+        simp only [Bool.and_eq_true]
+        refine ⟨⟨?_, (entersAt_iff _ _ _ _).2 ⟨hk0, hk1⟩⟩, hk2⟩
+        simp only [bne_iff_ne, ne_eq]
+        omega
+      have hnm : needsMem (ctx p prog tbl stalled).prog (E (t + 1)) q = true := ha
+      simp [hmt, hnm]
+  · have : supports (ctx p prog tbl stalled).prog (E (t + 1)) q = false := by
+      rw [Bool.not_eq_true] at h1; exact h1
+    simp [this]
+
 end diagReading
 
 end reading
